@@ -39,7 +39,9 @@ CLAIMED = {
              "every well-formed LRU (present or not), refusal iff none; prefix enumeration = that map; attaching an attached prefix is refused "
              "(create and add_prefix), exactly then. On the API requests translated from the source on every run (GenTraph.v over GenTrieW.v / GenTrie.v): "
              "Traph.retrieve_webentity, retrieve_prefix, get_webentity_by_prefix and the prefix enumeration answer the specification's resolution, "
-             "on the trie file of every reachable state, without changing a byte.", T_REF, "DESIGN.md section 6 C04"),
+             "on the trie file of every reachable state, without changing a byte; Props/C04b.v and C04_source_create: the translated "
+             "create_webentity, add_prefix_to_webentity, remove_prefix_from_webentity, move_prefix_to_webentity and delete_webentity are accepted / "
+             "refused exactly as the specification says and leave the file of the model's next state.", T_REF, "DESIGN.md section 6 C04"),
     "C05": c(REF + "Props/C05.v: for any prefix list, the pages returned are (as a permutation) the specification's realm pages: pages under the prefix "
              "with no longer webentity prefix in between; crawled variant = the crawled ones; depth-limited variant too. On the API requests translated "
              "from the source on every run (GenTraph.v over the translated webentity_dfs_iter of GenTrieD.v): get_webentity_pages / "
@@ -69,7 +71,10 @@ CLAIMED = {
              "Coq proof on the model's persistent state + twin runs of the implementation (reopened vs never closed, cleared vs fresh)", "DESIGN.md section 6 C11",
              "Partial for OS page cache / Python buffering, which no model here exhibits."),
     "C12": c("Props/C12.v for EVERY history without clear from ANY state (no well-formedness needed): reported ids strictly increase, all above the header "
-             "counter (so above ids of deleted webentities and ids issued before a reopen); one creation request, one id; clear restarts the counter.",
+             "counter (so above ids of deleted webentities and ids issued before a reopen); one creation request, one id; clear restarts the counter. "
+             "Props/C12b.v, on the creation path translated from the source on every run (GenTraphW.v: Traph.create_webentity, __add_prefixes, "
+             "__generated_web_entity_id and the LRUTrieHeader object): an accepted creation returns the header counter + 1, one id for all its "
+             "prefixes, and that id is what the header block of the file decodes to afterwards, for every history.",
              "Coq proof: invariant on the header counter by induction over histories; differential run of id sequences across reopen", "DESIGN.md section 6 C12",
              "The 32-bit width of the header field is not modelled (unbounded N)."),
     "C13": c(REF + "Props/C13.v: parents = webentities on proper stem-prefixes, children = webentities on proper extensions (set equality with the "
